@@ -85,9 +85,14 @@ def impl(d):
         a = cls(hash160=d["h"])
         s = a.to_string()
         back = guarded(lambda: cls(address=s).to_hash160())
+        # the classmethod entry points must be the constructor
+        if guarded(lambda: cls.from_hash160(d["h"]).to_string()) != s or guarded(lambda: cls.from_address(s).to_hash160()) != back:
+            return "CLASSMETHOD_DIFFERS"
         return s.encode().hex() + "|" + back
     if k == "dec":
         cls = P2pkhAddress if d["ty"] == "p2pkh" else P2shAddress
+        if guarded(lambda: cls.from_address(d["s"]).to_hash160()) != guarded(lambda: cls(address=d["s"]).to_hash160()):
+            return "CLASSMETHOD_DIFFERS"
         a = cls(address=d["s"])          # acceptance is the constructor returning; what it then holds is observed apart
         try:
             h = a.to_hash160()
